@@ -224,9 +224,14 @@ pub fn run(ctx: &'static Ctx) {
 
     // ---- E3c: long slices (an implementation that sums a slice in a wider integer and folds it back must fold correctly)
     let mut long: Vec<Vec<u8>> = vec![];
-    for len in [6usize, 16, 64, 127, 128, 129, 130, 131, 200, 255, 256, 257, 258, 300, 1000, 4096, 65_535, 65_536, 65_537, 300_000] {
+    for len in [6usize, 16, 64, 127, 128, 129, 130, 131, 200, 255, 256, 257, 258, 300, 1000, 4096, 65_535, 65_536, 65_537, 100_000, 131_072, 131_073, 300_000] {
         for pat in 0..6u8 {
             long.push((0..len).map(|i| match pat { 0 => 0xff, 1 => 0x80, 2 => 0x01, 3 => 0x7f, 4 => (i * 7 + 3) as u8, _ => if i % 2 == 0 { 0xff } else { 0x00 } }).collect());
+        }
+        // irregular contents: every block of the slice has its own byte sum (regular fills and ramps sum to 0 mod 256 over
+        // 64 KiB, which would hide a dropped or repeated block)
+        for salt in [1u64, 2] {
+            long.push((0..len).map(|i| crate::util::splitmix(salt * 0x1_0000_0001 + (i as u64 / 8)).to_le_bytes()[i % 8]).collect());
         }
     }
     let nl = AtomicU64::new(0);
@@ -266,7 +271,7 @@ pub fn run(ctx: &'static Ctx) {
     // ---- E3d: every slice length 0..=1100 and sub-slices at every start alignment 0..=16 of one buffer (an
     // implementation that sums by machine words must handle head and tail bytes at every alignment)
     {
-        let buf: Vec<u8> = (0..70_000usize).map(|i| (i as u8).wrapping_mul(37).wrapping_add((i >> 8) as u8) | 1).collect();
+        let buf: Vec<u8> = (0..70_000usize).map(|i| crate::util::splitmix(0x5eed + (i as u64 / 8)).to_le_bytes()[i % 8] | 1).collect();
         let lens: Vec<usize> = (0..=1100usize).chain([4090, 4095, 4096, 4097, 8191, 8192, 8193, 65_535, 65_536, 65_537]).collect();
         let na = AtomicU64::new(0);
         lens.par_iter().for_each(|len| {
